@@ -507,10 +507,16 @@ class X12Writer(X12Base):
         @param seg_data: Segment data instance
         @type seg_data: L{segment<segment.Segment>}
         """
+        seg_id = seg_data.get_seg_id()
+        # A header ends the envelopes still open at its own or an inner level:
+        # generate the trailers left out in front of it
+        ends = {'ISA': ('ST', 'GS', 'ISA'), 'GS': ('ST', 'GS'), 'ST': ('ST',)}.get(seg_id, ())
+        while len(self.loops) > 0 and self.loops[-1][0] in ends:
+            loop = self.loops.pop()
+            self._close_loop(loop[0], loop[1])
         self._parse_segment(seg_data)
         # If we have hit a loop closing segment, generate any missing, containing, closing segments
         # then generate this segment
-        seg_id = seg_data.get_seg_id()
         if seg_id == 'IEA':
             self._popToLoop('ISA')
         elif seg_id == 'GE':
